@@ -726,7 +726,7 @@ impl TopologicalSortMachine {
                 // leaves: exactly the recorded leaf paths, each once
                 && (forall|x: String| self.source_leaves@.contains(x) <==> #[trigger] pack.leaves@.contains(x)) && pack.leaves@.no_duplicates()
                 // node i is emitted frame i with every source bound by name: to the leaf of that name, or to (final position of the
-                // rule owning that target, position of the target in that rule)                                                          //# O-S-binding [C12,C01]
+                // rule owning that target, position of the target in that rule)                                                          //# O-S-binding [C12,C01,C02]
                 && (forall|i: int| 0 <= i < pack.nodes@.len() ==> node_of(#[trigger] pack.nodes@[i], self.frames_in_order@[i], pack.leaves@, self.to_buffer_index@, self.frame_buffer@)),
             res is Ok,
 //@ hint start
